@@ -309,9 +309,12 @@ def freshness_loop_vars(fn_node) -> Dict[str, str]:
     """
     out = {}
     for sub in ast.walk(fn_node):
+        left = sub.test.left if isinstance(sub, ast.While) and isinstance(sub.test, ast.Compare) else None
+        if isinstance(left, ast.Call) and len(left.args) == 1 and isinstance(left.args[0], ast.Name) and not left.keywords:
+            left = left.args[0]          # `while to_variable(name) in reserved:` tests the name through its wrapper
         if isinstance(sub, ast.While) and isinstance(sub.test, ast.Compare) and len(sub.test.ops) == 1 and \
-                isinstance(sub.test.ops[0], ast.In) and isinstance(sub.test.left, ast.Name):
-            var = sub.test.left.id
+                isinstance(sub.test.ops[0], ast.In) and isinstance(left, ast.Name):
+            var = left.id
             coll = ast.unparse(sub.test.comparators[0])
             reassigned = any((isinstance(s, ast.Assign) and any(isinstance(tg, ast.Name) and tg.id == var for tg in s.targets)) or
                              (isinstance(s, ast.AugAssign) and isinstance(s.target, ast.Name) and s.target.id == var)
